@@ -34,7 +34,9 @@ CONSTANTS
   BossMode,       \* wiring of people.boss -> people : off | idxNull | conNoneNull
   TeamMode,       \* wiring of people.team -> teams  : off | idx | idxNull | idxCascade | conNone | conNoneNull | conCascade | conCascadeNull
   ChildExtended,  \* staff declared Extended()
-  LinksViaEntity  \* people.teams is also written by Create/Update of a person (SetLinkedIds)
+  LinksViaEntity, \* people.teams is also written by Create/Update of a person (SetLinkedIds)
+  ChildFeatures   \* constraints and link sets registered on the *child* store: teams.chief -> staff (nullable fk index, back-reference set
+                  \* staff.chiefOf: a child-store constraint that refuses deletes) and the link collection staff.squads <-> teams.squadStaff
 
 NIL   == "~"       \* the null value
 NoEnt == [none |-> TRUE]   \* "no such entity" / "no child data" (a record: TLC cannot compare a record with a string)
@@ -68,7 +70,11 @@ InitDb ==
     lnkPT    |-> [i \in Ids |-> {}],                    \* link collection people.teams <-> teams.members
     lnkTP    |-> [t \in Teams |-> {}],
     rcPT     |-> [i \in Ids |-> [t \in Teams |-> 0]],   \* ref-counted links people.svc <-> teams.users (0 = absent)
-    rcTP     |-> [t \in Teams |-> [i \in Ids |-> 0]] ]
+    rcTP     |-> [t \in Teams |-> [i \in Ids |-> 0]],
+    chief    |-> [t \in Teams |-> NIL],                 \* teams.chief: an id that has child data, or NIL     (ChildFeatures)
+    backChief |-> [i \in Ids |-> {}],                   \* staff.chiefOf, kept inside the child part of the entity
+    lnkST    |-> [i \in Ids |-> {}],                    \* link collection staff.squads <-> teams.squadStaff
+    lnkTS    |-> [t \in Teams |-> {}] ]
 
 Present(d, i)  == d.ent[i] # NoEnt
 HasExt(d, i)   == d.ext[i] # NoEnt
@@ -161,6 +167,18 @@ SetLinksT(d, t, reqSet) ==
   ELSE Res([d EXCEPT !.lnkTP[t] = reqSet,
                      !.lnkPT = [p \in Ids |-> IF p \in reqSet THEN d.lnkPT[p] \cup {t} ELSE d.lnkPT[p] \ {t}]],
            {}, << >>, NIL)
+\* the same three calls on the collection registered on the child store: "present" means "has child data"
+LinksS(d, name, p, ts) ==
+  IF ~HasExt(d, p) THEN Res(d, {"other"}, << >>, NIL)
+  ELSE IF name # "removeLinks" /\ ~(ts \subseteq d.tms) THEN Res(d, {"notfound"}, << >>, NIL)
+  ELSE LET new == CASE name = "addLinks" -> d.lnkST[p] \cup ts [] name = "removeLinks" -> d.lnkST[p] \ ts [] name = "setLinks" -> ts
+       IN Res([d EXCEPT !.lnkST[p] = new, !.lnkTS = [t \in Teams |-> IF t \in new THEN d.lnkTS[t] \cup {p} ELSE d.lnkTS[t] \ {p}]], {}, << >>, NIL)
+LinksTS(d, name, t, ps) ==
+  IF t \notin d.tms THEN Res(d, {"other"}, << >>, NIL)
+  ELSE IF name # "removeLinks" /\ (\E p \in ps : ~HasExt(d, p)) THEN Res(d, {"notfound"}, << >>, NIL)
+  ELSE LET new == CASE name = "addLinks" -> d.lnkTS[t] \cup ps [] name = "removeLinks" -> d.lnkTS[t] \ ps [] name = "setLinks" -> ps
+       IN Res([d EXCEPT !.lnkTS[t] = new, !.lnkST = [p \in Ids |-> IF p \in new THEN d.lnkST[p] \cup {t} ELSE d.lnkST[p] \ {t}]], {}, << >>, NIL)
+
 \* AddLink / RemoveLink (single, returns whether the local side changed)
 AddLinkP(d, p, t) ==
   IF ~Present(d, p) THEN Res(d, {"other"}, << >>, NIL)
@@ -262,7 +280,9 @@ DeletePersonEffect(d, id) ==
                !.backTeam = [t \in Teams |-> IF FkKind(TeamMode) = "index" /\ t = p.team THEN d.backTeam[t] \ {id}
                                              ELSE d.backTeam[t]],
                !.lnkPT[id] = {}, !.lnkTP = [t \in Teams |-> d.lnkTP[t] \ {id}],
-               !.rcPT[id] = [t \in Teams |-> 0], !.rcTP = [t \in Teams |-> [d.rcTP[t] EXCEPT ![id] = 0]]]
+               !.rcPT[id] = [t \in Teams |-> 0], !.rcTP = [t \in Teams |-> [d.rcTP[t] EXCEPT ![id] = 0]],
+               !.backChief[id] = {},
+               !.lnkST[id] = {}, !.lnkTS = [t \in Teams |-> d.lnkTS[t] \ {id}]]
 
 \* who refuses the delete of person id
 DeletePersonErrs(d, sysctx, id, veto) ==
@@ -271,6 +291,7 @@ DeletePersonErrs(d, sysctx, id, veto) ==
               ELSE IF FkKind(BossMode) = "constraint" THEN {e \in Ids : Present(d, e) /\ d.ent[e].boss = id}
               ELSE {}
   IN (IF refs # {} THEN {"refExists"} ELSE {})
+     \cup (IF d.backChief[id] # {} THEN {"refExists"} ELSE {})       \* the delete constraint registered on the child store
      \cup (IF p.sys /\ ~sysctx THEN {"system"} ELSE {})
      \cup (IF p.roles \cap BadRoles # {} THEN {"storage"} ELSE {})
      \cup (IF veto THEN {"veto"} ELSE {})
@@ -289,9 +310,19 @@ DeleteOp(d, sysctx, id, veto) ==
        IN IF errs # {} THEN Res(d, errs, << >>, NIL)
           ELSE Res(DeletePersonEffect(d, id), {}, DelEvs(d, id), NIL)
 
-CreateTeamOp(d, t) ==
+\* chief: NIL or an id; the target of teams.chief has to be present in the *child* store
+CreateTeamOp(d, t, chief) ==
   IF t \in d.tms THEN Res(d, {"exists"}, << >>, NIL)
-  ELSE Res([d EXCEPT !.tms = @ \cup {t}], {}, << Ev("teams", "created", t, << >>) >>, NIL)
+  ELSE IF chief # NIL /\ ~HasExt(d, chief) THEN Res(d, {"fkMissing"}, << >>, NIL)
+  ELSE Res([d EXCEPT !.tms = @ \cup {t}, !.chief[t] = chief,
+                     !.backChief = [i \in Ids |-> IF i = chief THEN d.backChief[i] \cup {t} ELSE d.backChief[i]]],
+           {}, << Ev("teams", "created", t, << >>) >>, NIL)
+UpdateTeamOp(d, t, chief) ==
+  IF t \notin d.tms THEN Res(d, {"notfound"}, << >>, NIL)
+  ELSE IF chief # NIL /\ chief # d.chief[t] /\ ~HasExt(d, chief) THEN Res(d, {"fkMissing"}, << >>, NIL)
+  ELSE Res([d EXCEPT !.chief[t] = chief,
+                     !.backChief = [i \in Ids |-> IF i = chief THEN d.backChief[i] \cup {t} ELSE d.backChief[i] \ {t}]],
+           {}, << Ev("teams", "updated", t, << >>) >>, NIL)
 
 \* cascade: delete the referrers one after the other, in id order (Ord = the order on ids)
 RECURSIVE CascadeDel(_, _, _, _)
@@ -331,6 +362,8 @@ DeleteTeamOp(d, sysctx, t, idOrder) ==
     IN IF casc.errs # {} THEN Res(d, casc.errs, << >>, NIL)
        ELSE LET d1 == casc.db
             IN Res([d1 EXCEPT !.tms = @ \ {t},
+                              !.chief[t] = NIL, !.backChief = [i \in Ids |-> d1.backChief[i] \ {t}],
+                              !.lnkTS[t] = {}, !.lnkST = [p \in Ids |-> d1.lnkST[p] \ {t}],
                               !.backTeam[t] = {},
                               !.lnkTP[t] = {}, !.lnkPT = [p \in Ids |-> d1.lnkPT[p] \ {t}],
                               !.rcTP[t] = [p \in Ids |-> 0], !.rcPT = [p \in Ids |-> [d1.rcPT[p] EXCEPT ![t] = 0]]],
@@ -363,11 +396,15 @@ FkSound(d) ==
         (IF NoVal(d.ent[i].team) THEN FkNullable(TeamMode) ELSE d.ent[i].team \in d.tms)
   /\ FkKind(BossMode) = "index" => \A t \in Ids : d.backBoss[t] = {i \in Ids : Present(d, i) /\ Present(d, t) /\ d.ent[i].boss = t}
   /\ FkKind(TeamMode) = "index" => \A t \in Teams : d.backTeam[t] = {i \in Ids : Present(d, i) /\ t \in d.tms /\ d.ent[i].team = t}
+  /\ \A t \in Teams : d.chief[t] # NIL => (t \in d.tms /\ HasExt(d, d.chief[t]))
+  /\ \A i \in Ids : d.backChief[i] = {t \in Teams : d.chief[t] = i}
 \* C05
 LinksSymmetric(d) ==
   /\ \A p \in Ids, t \in Teams : (t \in d.lnkPT[p]) <=> (p \in d.lnkTP[t])
   /\ \A p \in Ids, t \in Teams : d.rcPT[p][t] = d.rcTP[t][p]
   /\ \A p \in Ids, t \in Teams : (t \in d.lnkPT[p] \/ d.rcPT[p][t] > 0) => (Present(d, p) /\ t \in d.tms)
+  /\ \A p \in Ids, t \in Teams : (t \in d.lnkST[p]) <=> (p \in d.lnkTS[t])
+  /\ \A p \in Ids, t \in Teams : t \in d.lnkST[p] => (HasExt(d, p) /\ t \in d.tms)
 \* C06
 NoTrace(d, id) ==
   /\ d.ent[id] = NoEnt /\ d.ext[id] = NoEnt
@@ -378,6 +415,7 @@ NoTrace(d, id) ==
   /\ \A i \in Ids : id \notin d.backBoss[i] /\ (Present(d, i) => d.ent[i].boss # id)
   /\ d.backBoss[id] = {} /\ d.lnkPT[id] = {} /\ \A t \in Teams : d.rcPT[id][t] = 0
   /\ \A t \in Teams : id \notin d.backTeam[t] /\ id \notin d.lnkTP[t] /\ d.rcTP[t][id] = 0
+  /\ d.backChief[id] = {} /\ d.lnkST[id] = {} /\ \A t \in Teams : d.chief[t] # id /\ id \notin d.lnkTS[t]
 NoGhosts(d) == \A i \in Ids : ~Present(d, i) => NoTrace(d, i)
 \* C15
 ChildWithinParent(d) == \A i \in Ids : HasExt(d, i) => Present(d, i)
